@@ -238,8 +238,6 @@ Proof.
   intros HM Ho WF Hwf. unfold getObjectSpecificProps. cbn [v_nested_remove fixed].
   rewrite !jget_split, split_o_modes_M, split_modes_M_o, split_nice by assumption.
   cbn [jsub].
-  change (LE (r2 <- (r1 <- jadd (tget X [o]) (tget X [o; "modes"; M]) ;; jadd r1 (tget X ["modes"; M; o])) ;;
-              Ok (jremove r2 "modes"))) || idtac.
   unfold wf_object in Hwf. apply andb_false_iff in Hwf. destruct Hwf as [Hwf|H3].
   - assert (L1 : LE (jadd (tget X [o]) (tget X [o; "modes"; M]))).
     { apply jadd_leaf. apply andb_false_iff in Hwf. destruct Hwf as [H|H]; apply objnone_false in H; auto. }
